@@ -78,7 +78,7 @@ def judge(case) -> Verdict:
 @st.composite
 def pair_st(draw, tier):
     platform = draw(st.sampled_from(["ios", "nxos"]))
-    kmax = draw(st.sampled_from([4, 4, 4, 4, 4, 4, 7, 7, 9]))
+    kmax = draw(st.sampled_from([4] * 24 + [7] * 5 + [9]))
     top = draw(G.ace_st(platform, kmax=kmax, groups=True, members=True, empty_sets=True, seq=False, noise=False))
     bottom = draw(G.mutate_ace(top, platform, kmax=kmax, groups=True, empty_sets=True))
     if draw(st.integers(0, 9)) == 0:
